@@ -473,11 +473,23 @@ func checkC04(P *Program, r *Result, tier string) {
 					// a counter: starts at a constant, some back edge increments it
 					isCounterLike := false
 					for _, e := range ph.Edges {
-						if bo, ok := e.(*ssa.BinOp); ok && bo.Op == token.ADD && bo.X == ssa.Value(ph) {
+						if bo, ok := e.(*ssa.BinOp); ok && (bo.Op == token.ADD || bo.Op == token.SUB) && bo.X == ssa.Value(ph) {
 							isCounterLike = true
 						}
 					}
 					if !isCounterLike {
+						continue
+					}
+					// the value it starts from (0 for a counter that counts up, the allowance for one that counts down)
+					start, haveStart := int64(0), false
+					for i, p := range hb.Preds {
+						if !hb.Dominates(p) {
+							if k, isC := constInt(ph.Edges[i]); isC {
+								start, haveStart = k, true
+							}
+						}
+					}
+					if !haveStart {
 						continue
 					}
 					okReset, detail := false, "no back edge of the read loop restarts the counter after a non-empty read"
@@ -496,7 +508,7 @@ func checkC04(P *Program, r *Result, tier string) {
 						if !progress {
 							continue
 						}
-						if k, isC := constInt(ph.Edges[i]); isC && k == 0 {
+						if k, isC := constInt(ph.Edges[i]); isC && k == start {
 							okReset, detail = true, ""
 						} else {
 							okReset, detail = false, "after a read that delivered bytes the loop continues with the counter not restarted"
